@@ -167,7 +167,10 @@
 
 (hy-repr-register [range slice] (fn [x]
   (defn r [attr]
-    (hy-repr (getattr x attr)))
+    (setv v (getattr x attr))
+    ; A bare keyword among the arguments of a call would be read as the
+    ; name of a keyword argument, so quote it.
+    (+ (if (isinstance v hy.models.Keyword) "'" "") (hy-repr v)))
   (.format "({})" (.join " " (+
     [(. (type x) __name__)]
     (if (= x.step (if (is (type x) range) 1 None))
